@@ -118,3 +118,86 @@ Theorem C13_object_position_aligned f rgt btm px py bw bh i cx cy dw dh x y p :
   aligned (if rgt then 100 - p else p) bw dw (x - cx).
 Proof. exact (object_position_aligned f rgt btm px py bw bh i cx cy dw dh x y p). Qed.
 Print Assumptions C13_object_position_aligned.
+
+(* ---- background layers (layout_background_layer; the `space` arithmetic of draw_background_image) *)
+Theorem C13_bg_contain i pw ph rgt btm px py rx ry r :
+  is_round rx = false -> is_round ry = false -> is_zero (iw i) || is_zero (ih i) = false ->
+  ir i = Some r -> 0 < r ->
+  exists w h x y, bg_layout i BContain pw ph rgt btm px py rx ry = BLayer w h x y /\ contained pw ph r w h.
+Proof. exact (bg_contain i pw ph rgt btm px py rx ry r). Qed.
+Print Assumptions C13_bg_contain.
+
+Theorem C13_bg_cover i pw ph rgt btm px py rx ry r :
+  is_round rx = false -> is_round ry = false -> is_zero (iw i) || is_zero (ih i) = false ->
+  ir i = Some r -> 0 < r ->
+  exists w h x y, bg_layout i BCover pw ph rgt btm px py rx ry = BLayer w h x y /\ covering pw ph r w h.
+Proof. exact (bg_cover i pw ph rgt btm px py rx ry r). Qed.
+Print Assumptions C13_bg_cover.
+
+(* round: an integer number (>= 1) of tiles exactly fills the positioning area; background-position is ignored *)
+Theorem C13_bg_round_fills_x i size pw ph rgt btm px py ry w h x y :
+  bg_layout i size pw ph rgt btm px py Round ry = BLayer w h x y -> ~ w == 0 ->
+  exists n : Z, (1 <= n)%Z /\ w * inject_Z n == pw /\ x == 0.
+Proof. exact (bg_round_fills_x i size pw ph rgt btm px py ry w h x y). Qed.
+Print Assumptions C13_bg_round_fills_x.
+
+Theorem C13_bg_round_fills_y i size pw ph rgt btm px py rx w h x y :
+  bg_layout i size pw ph rgt btm px py rx Round = BLayer w h x y -> ~ h == 0 ->
+  exists n : Z, (1 <= n)%Z /\ h * inject_Z n == ph /\ y == 0.
+Proof. exact (bg_round_fills_y i size pw ph rgt btm px py rx w h x y). Qed.
+Print Assumptions C13_bg_round_fills_y.
+
+(* space: with n = floor(area / image) >= 2 tiles, the first starts at 0, the last ends at the far edge
+   (step * (n - 1) + image = area) and the tiles do not overlap (image <= step) *)
+Theorem C13_bg_space_distributes area paint img pos step off :
+  0 < img -> (2 <= Qround.Qfloor (area / img))%Z ->
+  draw_axis Space area paint img pos = Some (step, off) ->
+  let n := Qround.Qfloor (area / img) in
+  off == 0 /\ step * inject_Z (n - 1) + img == area /\ img <= step.
+Proof. exact (space_distributes area paint img pos step off). Qed.
+Print Assumptions C13_bg_space_distributes.
+
+(* background-position percentages align the same percentage points of image and area (final sizes) *)
+Theorem C13_bg_position_aligned_x i size pw ph rgt btm p py rx ry w h x y :
+  is_round rx = false ->
+  bg_layout i size pw ph rgt btm (Pct p) py rx ry = BLayer w h x y ->
+  aligned (if rgt then 100 - p else p) pw w x.
+Proof. exact (bg_position_aligned_x i size pw ph rgt btm p py rx ry w h x y). Qed.
+Print Assumptions C13_bg_position_aligned_x.
+
+Theorem C13_bg_position_aligned_y i size pw ph rgt btm px p rx ry w h x y :
+  is_round ry = false ->
+  bg_layout i size pw ph rgt btm px (Pct p) rx ry = BLayer w h x y ->
+  aligned (if btm then 100 - p else p) ph h y.
+Proof. exact (bg_position_aligned_y i size pw ph rgt btm px p rx ry w h x y). Qed.
+Print Assumptions C13_bg_position_aligned_y.
+
+(* the layer computation never raises when the intrinsic ratio, if known, is positive *)
+Theorem C13_bg_layout_total i size pw ph rgt btm px py rx ry :
+  opos (ir i) -> bg_layout i size pw ph rgt btm px py rx ry <> BErr.
+Proof. exact (bg_layout_total i size pw ph rgt btm px py rx ry). Qed.
+Print Assumptions C13_bg_layout_total.
+
+(* ---- each distinct image is embedded once *)
+Theorem C13_xobject_name_injective id1 b1 id2 b2 : name_of id1 b1 = name_of id2 b2 -> id1 = id2 /\ b1 = b2.
+Proof. exact (name_of_injective id1 b1 id2 b2). Qed.
+Print Assumptions C13_xobject_name_injective.
+
+(* Stream.add_image: after any sequence of calls every (image id, interpolate) has exactly one entry in _images and
+   in the XObject resources, nothing else is there, and every call returned its name *)
+Theorem C13_image_embedded_once cs :
+  let '(s, ns) := run_calls sinit cs in
+  NoDup (map e_name (images s)) /\ NoDup (xobjs s) /\
+  ns = map key_name cs /\
+  (forall m, In m (map e_name (images s)) <-> In m (map key_name cs)) /\
+  (forall m, In m (xobjs s) <-> In m (map key_name cs)).
+Proof. exact (image_embedded_once cs). Qed.
+Print Assumptions C13_image_embedded_once.
+
+(* _use_references: whatever resource dictionaries (pages, groups, patterns) name an image, its XObject is added to
+   the PDF exactly once *)
+Theorem C13_xobject_added_once ds :
+  let s := use_dicts ds in
+  NoDup (added s) /\ (forall m, In m (added s) <-> exists d, In d ds /\ In m d).
+Proof. exact (xobject_added_once ds). Qed.
+Print Assumptions C13_xobject_added_once.
